@@ -762,15 +762,25 @@ def run_check(crate_dir, target_dir, logdir, timeout=120, log=print):
         spec2 = "(ite %s %s %s)" % (PURE_INT, ref_int(q2, q3), ref_f32(q2, q3))
         ask("equiv", i, "q1 ratio == reference(q1,q3)", pc + ["(distinct %s %s)" % (outs[0], spec1)], "unsat")
         ask("equiv", i, "q2 ratio == reference(q2,q3)", pc + ["(distinct %s %s)" % (outs[1], spec2)], "unsat")
-    # discrimination witnesses: the reference formulas are distinguishable from near misses
+    # discrimination witnesses: the reference formulas are distinguishable from near misses.
+    # Asked first at a pinned point (found by the solvers once; evaluation only, so that a loaded
+    # machine cannot turn this guard into a time-out), then, if that is not `sat`, freely.
     ex2 = "(declare-const a (_ BitVec 32))\n(declare-const b (_ BitVec 32))\n"
-    for what, l, r_ in (("int and f32 references differ somewhere", ref_int("a", "b"), ref_f32("a", "b")),
-                        ("f32 and f64 formulas differ somewhere", ref_f32("a", "b"), ref_f64("a", "b"))):
-        script = "(set-logic ALL)\n" + ex2 + "(assert (distinct b (_ bv0 32)))\n(assert (bvule a b))\n" \
-                 "(assert (distinct %s %s))\n(check-sat)\n" % (l, r_)
-        r = solve(script, timeout)
-        answers = {k: v[0] for k, v in r.items()}
-        secs = max(v[2] for v in r.values())
+    for what, l, r_, pin in (
+            ("int and f32 references differ somewhere", ref_int("a", "b"), ref_f32("a", "b"),
+             (2415919104, 3221225472)),
+            ("f32 and f64 formulas differ somewhere", ref_f32("a", "b"), ref_f64("a", "b"),
+             (2147483647, 2147483647))):
+        body = "(assert (distinct b (_ bv0 32)))\n(assert (bvule a b))\n" \
+               "(assert (distinct %s %s))\n" % (l, r_)
+        pinned = "(assert (= a %s))\n(assert (= b %s))\n" % (bv(pin[0], 32), bv(pin[1], 32))
+        answers, secs = {}, 0.0
+        for extra in (pinned, ""):
+            r = solve("(set-logic ALL)\n" + ex2 + extra + body + "(check-sat)\n", timeout)
+            answers = {k: v[0] for k, v in r.items()}
+            secs += max(v[2] for v in r.values())
+            if combine(answers) == "sat":
+                break
         res["solver_s"] += secs
         v = "ok" if combine(answers) == "sat" else "inconclusive"
         res["queries"].append({"kind": "discrimination", "path": -1, "what": what, "expect": "sat",
